@@ -26,15 +26,15 @@ def enc_num(x) -> list:
     if x != x or x in (float("inf"), float("-inf")):
         raise OutOfModel(f"non-finite {x}")
     f = Fraction(x)
-    if abs(f.numerator) >= LIM or f.denominator >= LIM:
-        # division by a non power of two (mean over 3 ...) : snap to the unique small rational nearby
+    if abs(f.numerator) >= LIM or f.denominator > 256:
+        # Not a small dyadic rational.  Division by a non power of two (mean over 3, 1/3 ...) gives a float64 that is
+        # the (almost) correctly rounded image of a small rational: snap to it.  Low-precision (float32/16) results of
+        # such divisions are NOT within a few float64 ulps of any small rational and leave the exact fragment.
         g = f.limit_denominator(10**4)
-        if g.denominator < 10**4 and abs(float(g) - x) <= 4e-16 * max(1.0, abs(x)) * 64:
+        if abs(float(g) - x) <= 1.8e-15 * max(abs(x), 1e-300) and abs(g.numerator) < LIM:
             f = g
         else:
             raise OutOfModel(f"not a small rational: {x!r}")
-    if abs(f.numerator) >= LIM:
-        raise OutOfModel(f"too large: {x!r}")
     return [f.numerator, f.denominator]
 
 
@@ -127,6 +127,9 @@ class Exec:
         self.be = backend
         self.H = {}  # handle -> Tensor | ndarray
         self.lib = mg if backend == "mg" else np
+        self.owned = []  # (array, pristine copy) of every caller-owned array handed to MyGrad (C12)
+        self.last_seed = None
+        self.last_seed_copy = None
 
     # -- operands
     def opnd(self, o):
@@ -135,17 +138,33 @@ class Exec:
         if "s" in o:
             return dec_num(o["s"])
         if "arr" in o:
-            return dec_arr(o["arr"]["sh"], o["arr"]["v"])
+            a = dec_arr(o["arr"]["sh"], o["arr"]["v"])
+            if self.be == "mg":
+                self.owned.append((a, a.copy()))
+            return a
         raise ValueError(o)  # pragma: no cover
+
+    def index(self, ixspec):
+        ix = dec_index(ixspec)
+        if self.be == "mg":
+            for a in (ix if isinstance(ix, tuple) else (ix,)):
+                if isinstance(a, np.ndarray):
+                    self.owned.append((a, a.copy()))
+        return ix
 
     def run(self, s):
         getattr(self, "do_" + s["k"])(s)
 
     # -- statements
     def do_leaf(self, s):
-        a = dec_arr(s["sh"], s["v"])
+        dt = {"f8": np.float64, "f4": np.float32, "f2": np.float16, "i8": np.int64, "b1": np.bool_}[s.get("dt", "f8")]
+        a = dec_arr(s["sh"], s["v"]).astype(dt)
         if self.be == "mg":
-            self.H[s["h"]] = mg.tensor(a, constant=s["const"])
+            # integer / boolean tensors are constant whatever is asked (C10); `const` is only passed for floats
+            if s.get("dt", "f8") in ("i8", "b1"):
+                self.H[s["h"]] = mg.tensor(a)
+            else:
+                self.H[s["h"]] = mg.tensor(a, constant=s["const"])
         else:
             self.H[s["h"]] = a
 
@@ -174,7 +193,7 @@ class Exec:
         elif f == "stack":
             r = L.stack(xs, axis=s["axis"], **kw)
         elif f == "getitem":
-            r = xs[0][dec_index(s["ix"])]
+            r = xs[0][self.index(s["ix"])]
         elif f == "reshape":
             r = L.reshape(xs[0], tuple(s["sh"]), **kw)
         elif f == "transpose":
@@ -208,7 +227,7 @@ class Exec:
         self.H[s["h"]] = r
 
     def do_setitem(self, s):
-        self.H[s["t"]][dec_index(s["ix"])] = self.opnd(s["val"])
+        self.H[s["t"]][self.index(s["ix"])] = self.opnd(s["val"])
 
     def do_aug(self, s):
         t = self.H[s["t"]]
@@ -242,9 +261,33 @@ class Exec:
         if self.be == "np":
             return
         if "seed" in s:
-            self.H[s["h"]].backward(self.opnd(s["seed"]))
+            seed = self.opnd(s["seed"])
+            if s.get("seed_kind") == "pyscalar" and np.ndim(seed) == 0:
+                seed = float(seed)
+            elif s.get("seed_kind") == "tensor" and not isinstance(seed, mg.Tensor):
+                seed = mg.tensor(seed)
+            self.last_seed = seed if isinstance(seed, np.ndarray) else None
+            self.last_seed_copy = None if self.last_seed is None else self.last_seed.copy()
+            self.H[s["h"]].backward(seed)
         else:
             self.H[s["h"]].backward()
+
+    def do_copy(self, s):
+        src = self.H[s["a"][0]["h"]]
+        self.H[s["h"]] = src.copy()
+
+    def do_editgrad(self, s):
+        if self.be == "np":
+            return
+        g = self.H[s["h"]].grad
+        if g is None:
+            return  # nothing to edit (the specification treats this as a no-op too)
+        g[dec_index(s["ix"])] = dec_num(s["c"])
+        # MyGrad stores a seed array of matching dtype as the terminal's .grad itself: this edit is then the CALLER's own
+        # modification of their array, not MyGrad's (re-baseline what the edit legitimately touched)
+        if self.last_seed is not None and np.shares_memory(g, self.last_seed):
+            self.last_seed_copy = self.last_seed.copy()
+        self.owned = [(a, a.copy() if np.shares_memory(g, a) else c) for a, c in self.owned]
 
     def do_clear(self, s):
         if self.be == "mg":
